@@ -145,7 +145,7 @@ pub fn property() -> Property {
         parts: vec![Box::new(GenPart {
             name: "peek-vs-decap",
             rule: "see property rule",
-            cases: (60_000, 3_000_000),
+            cases: (360_000, 3_000_000),
             strategy,
             check,
             required_classes: &["frag-id", "label", "reuse-error", "packet-with-extensions", "has-packets"],
